@@ -333,8 +333,17 @@ def check_ds_left(ctx):
         meth = klass.methods.get(mname)
         if meth is None:
             continue
-        for call in dataset_ctor_calls(meth):
+        rets = [r for r in walk_local(meth.node) if isinstance(r, ast.Return)
+                and r.value is not None]
+        ctors = {id(c) for c in dataset_ctor_calls(meth)}
+        for ret in rets:
             n += 1
+            call = ret.value
+            if not (isinstance(call, ast.Call) and id(call) in ctors):
+                ctx.undecided('DS-LEFT', meth, f'{mname}: returns '
+                              f'{txt(call)[:50]} (not a Dataset(...) '
+                              f'construction)', at=meth.where(ret))
+                continue
             bins = ctor_arg(call, None if True else 2, 'bins')
             name = ctor_arg(call, 99, 'name')
             ok_b = bins is not None and txt(bins).startswith('self.bins')
@@ -343,7 +352,61 @@ def check_ds_left(ctx):
                        f'name={txt(name) if name is not None else None}',
                        ok_b and ok_n, at=meth.where(call),
                        detail='bins and name of the left operand are kept')
-    ctx.floor('DS-LEFT', n, 8, 'Dataset(...) in the four operators')
+    ctx.floor('DS-LEFT', n, 8, 'returns of the four operators')
+
+
+OP_NODES = {'__add__': ast.Add, '__sub__': ast.Sub, '__mul__': ast.Mult,
+            '__truediv__': ast.Div}
+
+
+def check_op_direct(ctx):
+    '''The value of `a <op> b` is the plain array operation
+    `a.value <op> b[.value]`: every return of an operator builds a Dataset
+    whose value is that binary operation; delegating to ANOTHER operator
+    (a / k as a * (1 / k), a - b as a + (-b)) is recognised-wrong: the
+    result differs by double rounding and in its behaviour for zeros and
+    infinities.'''
+    klass = dataset_class(ctx.program)
+    n = 0
+    for mname, opcls in OP_NODES.items():
+        meth = klass.methods.get(mname)
+        if meth is None:
+            raise AnalysisError(f'Dataset.{mname} not found')
+        defs = local_defs(meth)
+        for ret in walk_local(meth.node):
+            if not isinstance(ret, ast.Return) or ret.value is None:
+                continue
+            n += 1
+            val = ret.value
+            if isinstance(val, ast.Call) and call_name(val) == 'Dataset':
+                arg = ctor_arg(val, 0, 'value')
+                arg = resolve_local(arg, defs) if arg is not None else None
+                good = isinstance(arg, ast.BinOp) and isinstance(
+                    arg.op, opcls) and txt(arg.left) == 'self.value' and \
+                    txt(arg.right) in ('other', 'other.value')
+                other_op = isinstance(arg, ast.BinOp) and not isinstance(
+                    arg.op, opcls) and 'self.value' in txt(arg)
+                ctx.decide('OP-DIRECT', meth,
+                           f'{mname}: value = {txt(arg)[:50] if arg is not None else "?"}',
+                           True if good else False if other_op else None,
+                           at=meth.where(ret))
+                continue
+            # delegation to another operator of the dataset
+            delegates = isinstance(val, ast.BinOp) and txt(val.left) in (
+                'self',) or (isinstance(val, ast.Call) and isinstance(
+                    val.func, ast.Attribute) and txt(val.func.value) ==
+                    'self' and val.func.attr in OP_NODES)
+            if val is not None and txt(val) == 'NotImplemented':
+                n -= 1
+                continue
+            ctx.decide('OP-DIRECT', meth, f'{mname}: returns '
+                       f'{txt(val)[:50]}', False if delegates else None,
+                       at=meth.where(ret),
+                       detail='computed through another operator: not the '
+                              'value of the plain array operation (double '
+                              'rounding, ZeroDivisionError for a zero '
+                              'constant)' if delegates else None)
+    ctx.floor('OP-DIRECT', n, 8, 'returns of the four operators')
 
 
 def check_ds_shape(ctx):
@@ -536,6 +599,32 @@ def check_ds_pure(ctx):
                       f'other / their fields', at=meth.where(),
                       nontrivial=False)
     ctx.floor('DS-PURE', n, 15, 'methods of Dataset')
+    # second opinion: inter-procedural write-effect analysis (library model
+    # of sa/effects.py, e.g. numpy.ma functions called with copy=False
+    # modify the mask of their argument in place)
+    from .. import effects
+    analyzer = effects.Analyzer(ctx.program, max_depth=3)
+    for meth in klass.methods.values():
+        if meth.name == '__init__':
+            continue
+        summ = analyzer.summary(meth)
+        seen = set()
+        for eff in summ.effects:
+            if eff.what in seen:
+                continue
+            seen.add(eff.what)
+            pname = meth.params[eff.root] if eff.root < len(meth.params) \
+                else f'#{eff.root}'
+            key = f'{meth.name}: {eff.what}'
+            if any(o.rule == 'DS-PURE' and o.construct.startswith(
+                    f'{meth.name}: ') and o.outcome == 'violated'
+                   for o in ctx.obligations):
+                continue        # already reported by the local rule
+            ctx.violated('DS-PURE', meth, key,
+                         at=f'{eff.func.module.relpath}:{eff.lineno}',
+                         detail=f'writes into operand `{pname}`'
+                                f'{"." + eff.field if eff.field else ""}: '
+                                + eff.describe())
 
 
 # ------------------------------------------------------------ DS-COPY ---
